@@ -203,6 +203,45 @@ pub fn exec_one(prop: &str, tier: &str, input: &RunInput, keep_lines: bool) -> R
   }
 }
 
+static ABORT_FD: std::sync::atomic::AtomicI32 = std::sync::atomic::AtomicI32::new(-1);
+
+extern "C" fn on_abort(_sig: i32) {
+  let fd = ABORT_FD.load(std::sync::atomic::Ordering::SeqCst);
+  let cur = WATCH.try_lock().ok().and_then(|g| g.clone());
+  let (seed, replayed) = match cur {
+    Some((_, seed, replayed)) => (seed, replayed),
+    None => (0, None),
+  };
+  let choices = simcore::choice::mirror_snapshot().or(replayed);
+  let refused = crate::meter::REFUSED.load(std::sync::atomic::Ordering::Relaxed);
+  let (class, detail) = if refused > 0 {
+    (
+      "abort/allocation-refused",
+      format!("the process aborted: an allocation of {refused} bytes was requested (refused above 2 GiB)"),
+    )
+  } else {
+    ("abort/signal-6", "the process aborted (SIGABRT)".to_string())
+  };
+  let r = RunOutput {
+    seed,
+    digest: 0,
+    fingerprint: 0,
+    nontrivial: false,
+    sim_ns: 0,
+    steps: 0,
+    n_choices: choices.as_ref().map_or(0, |c| c.len()),
+    violation: Some(Violation::new(class, detail)),
+    choices,
+    stats: Default::default(),
+    lines: None,
+  };
+  let line = serde_json::to_string(&r).unwrap_or_default() + "\n";
+  unsafe {
+    libc::write(fd, line.as_ptr() as *const libc::c_void, line.len());
+    libc::_exit(4);
+  }
+}
+
 /// Run a job in a forked child; results stream back over a pipe.
 pub fn run_forked(job: &Job, timeout: Duration) -> ChildEnd {
   let mut fds = [0i32; 2];
@@ -262,6 +301,12 @@ pub fn run_forked(job: &Job, timeout: Duration) -> ChildEnd {
           }
         }
       });
+    }
+    // a process abort (allocation failure, double panic) is reported like a hang: with the
+    // decisions drawn so far
+    ABORT_FD.store(out_fd, std::sync::atomic::Ordering::SeqCst);
+    unsafe {
+      libc::signal(libc::SIGABRT, on_abort as usize);
     }
     for inp in &job.inputs {
       simcore::choice::mirror_start();
@@ -370,6 +415,8 @@ pub fn run_batch_robust(job: &Job, per_run_timeout: Duration) -> Vec<RunOutput> 
         };
         match run_forked(&single, per_run_timeout + Duration::from_secs(8)) {
           ChildEnd::Ok(mut v) => out.append(&mut v),
+          // the in-child watchdog or abort handler has reported the run itself
+          ChildEnd::Died { mut done, .. } if !done.is_empty() => out.append(&mut done),
           ChildEnd::Died { status, .. } => out.push(synthetic(
             inp,
             Violation::new(
